@@ -11,7 +11,7 @@ from pv.readers.common import KINDS, PROV, TIME_FORMALS, XML_SUBTYPES, XSD
 NSPOOL = ["http://ex.org/", "http://ex.org/sub#", "urn:x:", "http://other.org/ns#"]
 PREFIXES = ["ex", "o", "u", "a", "ex2"]
 LOCALS = ["e1", "e2", "a1", "a2", "ag1", "c1", "r1", "x.y", "b-1"]
-ATTRS = ["tag", "v", "n_1"]
+ATTRS = ["tag", "v", "n_1", "time", "startTime", "type"]   # application attributes may share a local name with a PROV attribute
 GENERIC = ["type", "label", "value", "location", "role"]
 SUBTYPE_OF = {}
 for _el, (_k, _t) in XML_SUBTYPES.items():
@@ -30,7 +30,7 @@ def abstract_document(r, xml=False):
         if k == "str":
             return ["str", r.choice(["a", "hello world", "", "é中", "x<y&z", 'q"t', "line\nbreak", "5", "true"])]
         if k == "int":
-            return ["int", r.choice([0, 1, -7, 42, 2 ** 40])]
+            return ["int", r.choice([0, 1, -7, 42, 2 ** 40, 2 ** 53 + 1, 9223372036854775807, -(2 ** 63) + 1, 10 ** 17 + 3])]
         if k == "float":
             return ["float", r.choice([1.5, -0.25, 1e10, 2.0])]
         if k == "bool":
@@ -45,7 +45,7 @@ def abstract_document(r, xml=False):
         if k == "lang":
             return ["lang", r.choice(["hi", "été", ""]), r.choice(["en", "fr"])]
         if k == "typed_int":
-            return ["typed", str(r.choice([3, -12, 7])), r.choice(["int", "long"]), r.random() < 0.5]
+            return ["typed", str(r.choice([3, -12, 7, 2 ** 53 + 1, 9223372036854775807, 9007199254740993])), r.choice(["int", "long"]), r.random() < 0.5]
         if k == "typed_str":
             return ["typed", r.choice(["abc", "", "x y"]), "string", False]
         if k == "typed_bool":
